@@ -27,7 +27,7 @@ structure Quiesced (w : World) : Prop where
   inv : Inv NoE w
   reach : Reach w.rx
 
-theorem minNat_eq_none : ∀ (l : List Nat), minNat l = none → l = []
+theorem minNat_eq_noneQ : ∀ (l : List Nat), minNat l = none → l = []
   | [], _ => rfl
   | a :: t, h => by
     simp only [minNat] at h
@@ -51,8 +51,8 @@ theorem not_woken_of_idle (w : World) (t : Task) (h : w.pick = none) (hl : w.tas
       split at h
       · cases h
       · rename_i hs
-        have ho' := minNat_eq_none _ ho
-        have hs' := minNat_eq_none _ hs
+        have ho' := minNat_eq_noneQ _ ho
+        have hs' := minNat_eq_noneQ _ hs
         cases t with
         | ctx => exact hc hready
         | op n =>
@@ -140,7 +140,7 @@ theorem Inv.steps_init (cfg : Cfg) (evs : List Ev) (hok : evsOk { cfg := cfg } e
 
 /-! ## a step with the sweep phase equals the step without it -/
 
-theorem pick_emit (w : World) (o : Obs) : (w.emit o).pick = w.pick := rfl
+theorem pick_emitQ (w : World) (o : Obs) : (w.emit o).pick = w.pick := rfl
 
 /-- **the sweep phase is the identity**: whatever the `sweep` switch says, a fine step from a world satisfying
     the invariant is the step without sweep -/
@@ -194,7 +194,7 @@ theorem quiesced_step {w : World} (hi : Inv NoE w) (hr : Reach w.rx) (e : Ev) (h
       · exact absurd hok hb1
       · exact hok
     split
-    · rw [pick_emit]; exact hidle
+    · rw [pick_emitQ]; exact hidle
     · exact hidle
 
 theorem step_of_bad (w : World) (e : Ev) (h : w.bad = true) : w.step e = w := by simp [World.step, h]
